@@ -102,7 +102,7 @@ def certificate(P, alpha, y, x, depth=0, tol=None):
             ok = e <= eps * 10
             return ok, "L2Reg", "" if ok else "(1+al)x = y + al*z off by %.3g" % e
         ok, br, d = certificate(P.proxh, np.asarray(alpha) / (1 + la),
-                                v.astype(y.dtype, copy=False), x, depth + 1, tol)
+                                v.astype(np.result_type(y.dtype, x.dtype), copy=False), x, depth + 1, tol)
         return ok, "L2Reg+" + br, d
 
     if cls is SP.L2Proj:
@@ -219,7 +219,8 @@ def certificate(P, alpha, y, x, depth=0, tol=None):
         # 0.5||w - y/alpha||^2 + (1/alpha) g(w)
         a = np.asarray(alpha)
         w = (y - x) / a
-        ok, br, d = certificate(P.prox, 1 / a, y / a, w.astype(y.dtype, copy=False),
+        ok, br, d = certificate(P.prox, 1 / a, y / a, w.astype(np.result_type(y.dtype, x.dtype),
+                                                                 copy=False),
                                 depth + 1, tol)
         return ok, "Conj(" + br + ")", d
 
